@@ -18,7 +18,7 @@ EXTENDS OpTable, Json
 
 CONSTANTS Mode,     \* "bfs" | "walk"
           LeafSet,  \* "atoms" | "quick" | "full": the calls applied in every state
-          GrowSet,  \* "small" | "full": the calls by which states are reached
+          GrowSet,  \* "tiny" | "small" | "full": the calls by which states are reached
           Depth
 
 NamesDef   == {"+", "foo", "|", ",", "[]", "{}", "-", "bar"}
@@ -58,8 +58,11 @@ GrowSmall ==
     Act(I(1200), A("fx"), A("foo")), Act(I(200), A("yf"), A("foo")), Act(I(1000), A("xf"), A("foo")),
     Act(I(0), A("yfx"), A("+")), Act(I(0), A("fy"), A("+")), Act(I(700), A("xf"), A("+")),
     Act(I(1001), A("xfy"), A("|")), Act(I(700), A("xfx"), A("bar")) }
+GrowTiny ==
+  { Act(I(200), A("xfy"), A("foo")), Act(I(200), A("fy"), A("foo")), Act(I(1000), A("yf"), A("foo")),
+    Act(I(0), A("yfx"), A("+")), Act(I(700), A("xf"), A("+")), Act(I(1001), A("xfy"), A("|")) }
 GrowFull == {a \in AtomActs : a.N.n \in {"foo", "+", "|"}}
-GrowActs == IF GrowSet = "small" THEN GrowSmall ELSE GrowFull
+GrowActs == IF GrowSet = "tiny" THEN GrowTiny ELSE IF GrowSet = "small" THEN GrowSmall ELSE GrowFull
 
 ASSUME \A a \in LeafActs \cup ArgActs \cup ListActs : AtomNames(a.N) \subseteq NamesDef
 
